@@ -9,6 +9,29 @@ TITLES = {json.loads(l)["id"]: json.loads(l)["title"] for l in (HERE / "properti
 # property -> (technique, claim text, note)   ; properties not listed here go to not_applicable
 CLAIMS = json.loads((HERE / "claims.json").read_text())
 
+KNOWN = json.loads((HERE / "known_findings.json").read_text())
+
+
+def as_built(pid: str) -> tuple[str, str]:
+    """(suffix for the claim text, suffix for the note) derived from the evidence file and the known-findings file."""
+    ev = HERE / "evidence" / f"{pid}.json"
+    text = ""
+    if ev.exists():
+        cov = json.loads(ev.read_text()).get("coverage", {})
+        rules = sorted(cov.get("rules", {}), key=lambda r_: int(r_[1:]))
+        if rules:
+            text = (f" As built: rules {', '.join(rules)} (one-line statement of each rule in DESIGN.md 11.4 and in the evidence file; R0 is the call-site "
+                    f"argument-binding rule shared by all properties), {cov.get('obligations', '?')} obligations on the current tree.")
+    kn = [k for k in KNOWN.get("known", []) if k["property"] == pid]
+    note = ""
+    if kn:
+        note = " Known findings printed as KNOWN-FINDING (exit 0): " + "; ".join(f"{k['rule']} {k['construct'].split('.')[-1]}" for k in kn) + "."
+    nfix = sum(1 for f_ in KNOWN.get("fixed", []) if f"property={pid} " in f_)
+    if nfix:
+        note += f" {nfix} genuine defect(s) of this property were repaired in /repo by fix: commits (known_findings.json, DESIGN.md section 6)."
+    return text, note
+
+
 checks = []
 na = []
 for pid in sorted(TITLES):
@@ -23,8 +46,8 @@ for pid in sorted(TITLES):
         "evidence_file": f"/verif/evidence/{pid}.json",
         "replay_cmd_template": f"./check {pid} --replay {{path}}",
         "engine": "sa",
-        "level_claimed": {"category": "other", "text": c["text"], "design_ref": f"DESIGN.md section 5, {pid}"},
-        "level_note": c["note"],
+        "level_claimed": {"category": "other", "text": c["text"] + as_built(pid)[0], "design_ref": f"DESIGN.md section 5 ({pid}) and section 11.4"},
+        "level_note": c["note"] + as_built(pid)[1],
         "technique": c["technique"],
     })
 man = {
